@@ -3,7 +3,7 @@
     [vm_compute] on a concrete witness) and followed by [Print Assumptions].
     Models: Model19.v (gates, entity expansion), Uri19.v (URI resolution); Spec: Spec19.v, Uri19.rfc_resolve. *)
 From XV Require Import Base.XDefs C19.Uri19 C19.Spec19 C19.Model19 C19.Proofs19a C19.Proofs19g C19.Proofs19b
-  C19.Proofs19c C19.ProofsUri19 Gen.GenGates C19.Gates19.
+  C19.Proofs19c C19.Proofs19d C19.ProofsUri19 Gen.GenGates C19.Gates19.
 Local Open Scope N_scope.
 
 (** ** T19_no_fetch (full on the model): for every configuration, resolver, file system and document, every
@@ -53,6 +53,29 @@ Theorem T19_limit : forall c rs fs L x, c_limit c = Some L ->
   (cntE (trace (run c rs fs x)) <= L)%nat /\ (cntP (trace (run c rs fs x)) <= S L)%nat.
 Proof. intros c rs fs L x H. exact (limit_bound c rs fs L H x). Qed.
 Print Assumptions T19_limit.
+
+(** ** T19_limit_per_parse (full on the parser-state model): on a parser object that is reused, whatever was parsed
+    before, whatever the scanner's cached limit and counter are, and however the manager was installed / changed /
+    the scanner switched, parse k returns exactly what a fresh run of document k returns under the
+    SecurityManager limit in force when that parse starts (scanReset refreshes the limit and zeroes the counter);
+    the verdicts of a whole history depend only on (scanner, manager installed?, manager's limit) at each parse. *)
+Theorem T19_limit_per_parse : forall c rs fs p x,
+  fst (parse_step c rs fs p x) = run (with_limit c (if ps_installed p then Some (ps_mgr p) else None)) rs fs x.
+Proof. exact parse_step_verdict. Qed.
+Print Assumptions T19_limit_per_parse.
+Theorem T19_limit_per_parse_history : forall ops c rs fs p,
+  run_hist c rs fs p ops = hist_spec c rs fs (ps_installed p) (ps_mgr p) ops.
+Proof. exact hist_per_parse. Qed.
+Print Assumptions T19_limit_per_parse_history.
+(** ... hence T19_limit holds for every parse of every history, with the limit then in force *)
+Theorem T19_limit_every_parse : forall c rs fs p x,
+  ps_installed p = true ->
+  (cntE (trace (fst (parse_step c rs fs p x))) <= ps_mgr p)%nat /\ (cntP (trace (fst (parse_step c rs fs p x))) <= S (ps_mgr p))%nat.
+Proof.
+  intros c rs fs p x I. rewrite parse_step_verdict, I.
+  exact (limit_bound (with_limit c (Some (ps_mgr p))) rs fs (ps_mgr p) eq_refl x).
+Qed.
+Print Assumptions T19_limit_every_parse.
 
 (* ---- concrete documents for the witnesses below -------------------------------------------------------- *)
 Definition cfgIG (lim : option nat) : cfg :=
@@ -107,6 +130,18 @@ Example T19_limit_unaffected_partial :
   forallb (fun n => unaffected_at (tree_doc n) (Nat.pow 2 (S n) - 1)) (seq 0 5) = true.
 Proof. vm_compute. reflexivity. Qed.
 Print Assumptions T19_limit_unaffected_partial.
+
+(** the per-parse theorem is about scanReset: a parser whose scanReset does not refresh the limit / zero the counter
+    (the same history run with [reset := id]) rejects an in-limit second document and accepts an over-limit one
+    after the limit was lowered *)
+Definition verdicts (l : list st) : list (option fatal) := map (fun s => first_fatal (trace s)) l.
+Example T19_limit_per_parse_nonvacuous :
+  verdicts (run_hist (cfgIG None) None nofs ps0 [HSetLimit 3; HInstall true; HParse (flat_doc 2); HParse (flat_doc 2);
+                                                  HSetLimit 1; HParse (flat_doc 2)]) = [None; None; Some FLimit] /\
+  verdicts (run_hist_with (fun p => p) (cfgIG None) None nofs ps0
+              [HSetLimit 3; HInstall true; HParse (flat_doc 2); HParse (flat_doc 2); HSetLimit 1; HParse (flat_doc 2)])
+    = [None; Some FLimit; Some FLimit].
+Proof. vm_compute. split; reflexivity. Qed.
 
 (** ** T19_recursion: a reference to an entity that is already on the reader stack is reported as
     RecursiveEntity (pushReaderAdoptEntity compares with the readers below the current one) ... *)
